@@ -284,14 +284,18 @@ def build_cases(tier: str) -> Tuple[List[dict], dict]:
     else:
         combos = [(qi, di, opts) for qi in range(len(queries)) for di in range(len(docs)) for opts in itertools.product((0, 1), repeat=5)]
     seen = set()
+    unjudged = 0
     for qi, di, opts in combos:
         if (qi, di, opts) in seen:
             continue
         seen.add((qi, di, opts))
         q, qlabel = queries[qi]
         dname, dbytes, dlabel = docs[di]
-        if q == "" and opts[0] == 0:
-            pass  # "-q ''" is a legal command line
+        if opts[0] == 1 and q != q.strip():
+            # -r: whether blank space around the text of a query file belongs to the query is
+            # not decided by the property (the tool strips it); only judged with -q
+            unjudged += 1
+            continue
         cases.append({
             "id": len(cases),
             "query": q,
@@ -306,7 +310,7 @@ def build_cases(tier: str) -> Tuple[List[dict], dict]:
             "debug": bool(opts[4]),
             "expected": expected[(qi, di)],
         })
-    return cases, {"queries": len(queries), "documents": len(docs), "label_mismatch": label_mismatch}
+    return cases, {"queries": len(queries), "documents": len(docs), "label_mismatch": label_mismatch, "unjudged": unjudged}
 
 
 def _case_input(case: dict) -> dict:
@@ -383,7 +387,7 @@ def run(tier: str, seed: int) -> dict:
             "wall_seconds": round(time.time() - t0, 1),
         },
         "exhaustive": tier != "quick" and skipped == 0,
-        "unjudged": 0,
+        "unjudged": info["unjudged"],
         "violations": out_viol,
     }
 
